@@ -528,6 +528,22 @@ def run_control(ctx):
         ctx.check("instrument: playing tracks first announces one instrument change per track on its channel",
                   bool(seqr.log) and seqr.log[0][:3] == ("instr", 5, MidiInstrument.names.index(newname) if newname in MidiInstrument.names else 1),
                   {"instrument_name": newname, "same_object_renamed": True}, ("instr", 5, prog), seqr.log[:1], mechanism="instr-renamed")
+    # observers the caller keeps no reference to of its own (they write into a log they were given), on two sequencers at once
+    import gc
+
+    class Scribe(Obs):
+        def __init__(self, log):
+            self.log = log
+    la, lb = [], []
+    sa, sb = Rec(), Rec()
+    sa.attach(Scribe(la)), sb.attach(Scribe(lb))
+    gc.collect()
+    bq2 = Bar()
+    bq2 + "D", bq2 + "F"
+    sa.play_Bar(bq, 1, 120), sb.play_Bar(bq2, 2, 90), sa.control_change(1, 7, 100), gc.collect(), sa.play_Note(Note("A", 3)), sa.stop_Note(Note("A", 3))
+    ctx.check("observer: attached observers receive exactly the sequencer's own event sequence", la == sa.log and lb == sb.log and len(la) > 8, {"observers":
+              "attached without another reference to them, one per sequencer, two sequencers alive"}, [len(sa.log), len(sb.log)], [len(la), len(lb)],
+              mechanism="observer-kept-only-by-the-sequencer")
     seq3 = Rec()
     seq3.set_instrument(4, 17, 2)
     ctx.check("instrument: set_instrument emits the instrument event", seq3.log == [("instr", 4, 17, 2)], {}, [("instr", 4, 17, 2)], seq3.log)
